@@ -143,6 +143,14 @@ PROPS = {
         technique="exhaustive depth-first enumeration of dial/task outcome sequences and cancellation points through the real Dialer.Dial and receiveRetry under a virtual clock (policy), plus delay-bounded schedule exploration of fault injection into the running instrumented advertiser/monitor (teardown)",
         text="Part 'teardown': one fault (read error, write error, five timeouts, link change) is injected into the running real advertiser / monitor, followed by every re-dial answer and optional cancellation, under every schedule within the deviation bound; the ordered seam log must show prompt, complete teardown, re-establishment or a reported error per the policy, and no I/O on the old connection. Part 'policy': every sequence of dial/task outcomes to the stated depth goes through the real Dialer and is compared with a 30-line reference state machine (attempt count, back-off values in virtual time, classification).",
         note="Fault alphabets are finite lists; the 17-request ipC saturation case is outside the bounds; classification of errors returned by retry dials is a don't-care (statement silent).",
-        parts=[part("teardown", "internal/corerad", "TestVerifC10", mode="sched", gomaxprocs=2, shards={"quick": 12, "thorough": 16})],
+        parts=[part("teardown", "internal/corerad", "TestVerifC10", mode="sched", gomaxprocs=2, shards={"quick": 12, "thorough": 16}),
+               part("policy", "internal/system", "TestVerifC11", shards={"quick": 8, "thorough": 16})],
+    ),
+    "C11": dict(
+        level="fault_enumeration", engine="envdfs",
+        technique="depth-first enumeration of every environment answer sequence (dial, sysctl get/set/restore, task outcome, cancellation) with a bounded number of non-default answers through the real Dialer.Dial and the real dial(); invariants over the recorded call log",
+        text="The real Dial loop, init back-off, dial(), setAutoconf and the cleanup closure run over fakes whose every answer is an explorer choice; all answer sequences with at most K non-default answers (K=2 quick, 3 thorough), for both modes, both initial sysctl values and 1-3 re-dial rounds, are executed; on each call log: every opened connection left the group and was closed exactly once before the next open and before return, the sysctl was written only while a connection was held and put back to the value read at that open, non-tolerated restore errors were reported, monitor mode never touched it.",
+        note="Kernel, ndp.Listen and the sysctl files are fakes behind build-time seams (dial() itself is the real code). Sequences with more than K non-default answers are not covered.",
+        parts=[part("envdfs", "internal/system", "TestVerifC11", shards={"quick": 8, "thorough": 16})],
     ),
 }
